@@ -709,19 +709,53 @@ Definition oracle_bytes_ok (f : bytes -> outcome bytes) : Prop :=
   forall b, wf_bytes b -> match f b with Ok ud => wf_bytes ud | Err _ => True | _ => False end.
 Definition oracle_stream_ok (f : stream -> outcome stream) : Prop :=
   forall cs, wf_stream cs -> match f cs with Ok cs' => wf_stream cs' | Err _ => True | _ => False end.
+Definition oracle_cssp_ok (f : stream -> nat * outcome stream) : Prop :=
+  forall cs, wf_stream cs -> match snd (f cs) with Ok cs' => wf_stream cs' | Err _ => True | _ => False end.
 
 Section Composition.
 Variable p : prof.
 Variable ber_parse : bytes -> outcome bytes.
-Variable tls_start nla_start : stream -> outcome stream.
+Variable trusted : bool.
+Variable tls_start : stream -> outcome stream.
+Variable cssp_run : stream -> nat * outcome stream.
 Hypothesis ber_ok : oracle_bytes_ok ber_parse.
 Hypothesis tls_ok : oracle_stream_ok tls_start.
-Hypothesis nla_ok : oracle_stream_ok nla_start.
+Hypothesis cssp_ok : oracle_cssp_ok cssp_run.
 
-Lemma hoare_start_with f : oracle_stream_ok f -> hoare (start_with f) (fun _ => True).
+Lemma hoare_start_ssl c : hoare (start_ssl trusted tls_start c) (fun _ => True).
 Proof.
-  intros Hf s [Hs1 Hs2]. unfold start_with. specialize (Hf _ Hs1).
-  destruct (f (s_in s)) as [cs'|e| |]; try contradiction; cbn [fst snd]; (split; [split; cbn [s_in s_alloc]; auto|]); split; auto.
+  intros s [Hs1 Hs2]. unfold start_ssl.
+  destruct (tls_handshake (check_cert c) trusted); [|cbn [fst snd]; split; [split; cbn [log_ev s_in s_alloc]; auto|split; auto; intros a Ha; discriminate]].
+  specialize (tls_ok _ Hs1).
+  destruct (tls_start (s_in s)) as [cs'|e| |]; try contradiction; cbn [fst snd];
+    (split; [split; cbn [log_ev s_in s_alloc]; auto|]); split; auto; intros a Ha; discriminate.
+Qed.
+
+Lemma hoare_emit_n m : forall n, hoare (emit_n m n) (fun _ => True).
+Proof.
+  induction n as [|n IH]; cbn [emit_n]; [apply hoare_ret; exact I|].
+  eapply hoare_bind; [apply hoare_emit|]. intros _ _. exact IH.
+Qed.
+
+Lemma emit_n_in m : forall n s, s_in (snd (emit_n m n s)) = s_in s.
+Proof.
+  induction n as [|n IH]; intros s; cbn [emit_n]; [reflexivity|].
+  unfold bind, emit at 1. cbn [fst snd]. rewrite IH. reflexivity.
+Qed.
+
+Lemma hoare_cssp_connect : hoare (cssp_connect cssp_run) (fun _ => True).
+Proof.
+  intros s Hs. unfold cssp_connect. pose proof (cssp_ok _ (proj1 Hs)) as Ho.
+  destruct (hoare_emit_n CSSP (fst (cssp_run (s_in s))) s Hs) as [[H1 H2] _].
+  pose proof (emit_n_in CSSP (fst (cssp_run (s_in s))) s) as Hin.
+  destruct (emit_n CSSP (fst (cssp_run (s_in s))) s) as [o s1]. cbn [fst snd] in *.
+  destruct (snd (cssp_run (s_in s))) as [cs'|e| |]; try contradiction; cbn [fst snd];
+    (split; [split; cbn [s_in s_alloc]; auto|]); split; auto; intros a Ha; discriminate.
+Qed.
+
+Lemma hoare_start_nla c : hoare (start_nla trusted tls_start cssp_run c) (fun _ => True).
+Proof.
+  unfold start_nla. eapply hoare_bind; [apply hoare_start_ssl|]. intros _ _. apply hoare_cssp_connect.
 Qed.
 
 Lemma read_connect_response_ok payload :
@@ -733,20 +767,19 @@ Proof.
   - split; [cbn; auto|unfold alloc_limit; cbn; lia].
 Qed.
 
-Lemma x224_connect_ok c : hoare (x224_connect p tls_start nla_start c) (fun _ => True).
+Lemma x224_connect_ok c : hoare (x224_connect p trusted tls_start cssp_run c) (fun _ => True).
 Proof.
   unfold x224_connect.
   eapply hoare_bind; [apply hoare_emit|]. intros _ _.
   eapply hoare_bind; [apply hoare_recv_tpkt|]. intros pl Hpl.
   eapply hoare_bind; [apply expect_raw_ok; exact Hpl|]. intros b Hb.
   eapply hoare_bind; [apply hoare_lift; apply read_connection_confirm_ok; exact Hb|]. intros sel _.
+  destruct (negb (sel_requested (offered c) sel)); [apply hoare_fail|].
   destruct (sel =? PROTOCOL_HYBRID).
   { destruct (has_auth c); [|apply hoare_fail].
-    eapply hoare_bind; [apply hoare_emit|]. intros _ _.
-    eapply hoare_bind; [apply hoare_start_with; exact nla_ok|]. intros _ _. apply hoare_ret. exact I. }
+    eapply hoare_bind; [apply hoare_start_nla|]. intros _ _. apply hoare_ret. exact I. }
   destruct (sel =? PROTOCOL_SSL).
-  { eapply hoare_bind; [apply hoare_emit|]. intros _ _.
-    eapply hoare_bind; [apply hoare_start_with; exact tls_ok|]. intros _ _. apply hoare_ret. exact I. }
+  { eapply hoare_bind; [apply hoare_start_ssl|]. intros _ _. apply hoare_ret. exact I. }
   destruct (sel =? PROTOCOL_RDP); [apply hoare_ret; exact I|apply hoare_fail].
 Qed.
 
@@ -794,7 +827,7 @@ Proof.
   eapply hoare_weaken; [apply hoare_lift; apply sec_license_ok; exact Hb|]. auto.
 Qed.
 
-Lemma connect_ok c : hoare (connect p ber_parse tls_start nla_start c) (fun _ => True).
+Lemma connect_ok c : hoare (connect p ber_parse trusted tls_start cssp_run c) (fun _ => True).
 Proof.
   unfold connect.
   eapply hoare_bind; [apply x224_connect_ok|]. intros sel _.
@@ -804,16 +837,16 @@ Proof.
 Qed.
 
 Theorem connect_total c cs :
-  wf_stream cs -> nocrash (fst (run_connect p ber_parse tls_start nla_start c cs)).
+  wf_stream cs -> nocrash (fst (run_connect p ber_parse trusted tls_start cssp_run c cs)).
 Proof.
-  intros H. unfold run_connect. apply (connect_ok c (mkSt cs [] 0)). split; [exact H|unfold alloc_limit; cbn; lia].
+  intros H. unfold run_connect. apply (connect_ok c (mkSt cs [] false 0)). split; [exact H|unfold alloc_limit; cbn; lia].
 Qed.
 
 Theorem connect_alloc c cs :
-  wf_stream cs -> s_alloc (snd (run_connect p ber_parse tls_start nla_start c cs)) <= alloc_limit.
+  wf_stream cs -> s_alloc (snd (run_connect p ber_parse trusted tls_start cssp_run c cs)) <= alloc_limit.
 Proof.
   intros H. unfold run_connect.
-  destruct (connect_ok c (mkSt cs [] 0)) as [[_ Ha] _]; [split; [exact H|unfold alloc_limit; cbn; lia]|exact Ha].
+  destruct (connect_ok c (mkSt cs [] false 0)) as [[_ Ha] _]; [split; [exact H|unfold alloc_limit; cbn; lia]|exact Ha].
 Qed.
 
 End Composition.
@@ -834,6 +867,12 @@ Qed.
 
 Lemma no_tls_ok : oracle_stream_ok no_tls.
 Proof. intros cs _. exact I. Qed.
+
+Lemma no_cssp_ok : oracle_cssp_ok no_cssp.
+Proof. intros cs _. exact I. Qed.
+
+Lemma tls_exact_ok post : oracle_stream_ok (tls_exact post).
+Proof. intros cs H. unfold tls_exact. destruct (stream_eqb cs post); auto. Qed.
 
 Lemma wf_stream_dec cs : forallb (forallb is_byte) cs = true -> wf_stream cs.
 Proof.
